@@ -128,6 +128,10 @@ pub struct Run {
     /// when set (sub-process mode), results are printed as JSON instead of written as evidence
     pub sub: Option<String>,
     pub write_evidence: bool,
+    /// cold-start mode (fresh child process): only the k-th stress pass runs, concurrently from the
+    /// very first call into the crate, then the process exits
+    pub cold: Option<usize>,
+    pub pass_counter: usize,
 }
 
 impl Run {
@@ -155,6 +159,8 @@ impl Run {
             extra: Map::new(),
             sub: None,
             write_evidence: true,
+            cold: None,
+            pass_counter: 0,
         }
     }
 
@@ -165,6 +171,11 @@ impl Run {
     /// Record one generator's work. `cases` = inputs tried, `nontrivial` = distinct non-trivial
     /// ones among them (counted by the caller), `domain` = size of the complete domain if finite.
     pub fn generator(&mut self, name: &str, kind: &str, domain: Option<u64>, cases: u64, nontrivial: u64, note: &str) {
+        if self.cold.is_some() {
+            // a cold-start child ran past its stress passes: nothing (more) to do
+            println!("COLDRESULT none");
+            std::process::exit(0);
+        }
         self.evaluations += cases;
         self.nontrivial += nontrivial;
         let complete = domain.map(|d| d == cases);
@@ -333,6 +344,69 @@ impl Run {
             }
             c => panic!("twin binary ended with {:?}", c),
         }
+    }
+
+    /// Fresh-process concurrency: spawn children of both binaries in cold-start mode; each child runs
+    /// one stress pass of the property from 16 barrier-released threads as its very first calls into
+    /// the crate (lazily initialised state, first-use races), and reports.
+    pub fn cold_children(&mut self) -> PResult {
+        let mut procs = Vec::new();
+        for prof in ["checked", "unchecked"] {
+            let bin = twin_binary(&self.root, prof);
+            if !bin.exists() {
+                continue;
+            }
+            for k in 0..2usize {
+                for _rep in 0..3 {
+                    let child = std::process::Command::new(&bin)
+                        .arg(&self.id)
+                        .arg("--tier")
+                        .arg(self.tier.name())
+                        .arg("--seed")
+                        .arg(format!("{}", self.seed as i64))
+                        .arg("--cold")
+                        .arg(format!("{}", k))
+                        .env("VERIF_ROOT", &self.root)
+                        .stdout(std::process::Stdio::piped())
+                        .stderr(std::process::Stdio::null())
+                        .spawn();
+                    if let Ok(c) = child {
+                        procs.push((prof, k, c));
+                    }
+                }
+            }
+        }
+        let n = procs.len() as u64;
+        let mut ran = 0u64;
+        let mut failure: Option<(String, Value)> = None;
+        for (prof, k, c) in procs {
+            let out = c.wait_with_output().expect("cold child");
+            let text = String::from_utf8_lossy(&out.stdout).to_string();
+            for line in text.lines() {
+                if let Some(js) = line.strip_prefix("COLDRESULT fail ") {
+                    if failure.is_none() {
+                        let mut v: Value = serde_json::from_str(js).unwrap_or(Value::Null);
+                        if let Some(o) = v.as_object_mut() {
+                            o.insert("profile".into(), json!(prof));
+                            o.insert("stress_pass".into(), json!(k));
+                        }
+                        failure = Some((prof.to_string(), v));
+                    }
+                } else if line.starts_with("COLDRESULT ok") {
+                    ran += 1;
+                }
+            }
+        }
+        self.evaluations += ran;
+        self.generators.push(json!({"name": "fresh child processes: a stress pass run from 16 barrier-released threads as the first calls into the crate", "kind": "concurrent cold start (not schedule-controlled)", "cases": n, "children_that_ran_a_pass": ran, "note": "both build profiles x 2 passes x 3 repetitions; finds first-use races (lazily built state) only with the probability of the interleaving"}));
+        if let Some((_prof, v)) = failure {
+            let clause = format!("{}.concurrent_cold_start", self.id);
+            let msg = v["message"].as_str().unwrap_or("").to_string();
+            let sig = v["sig"].as_str().unwrap_or("").to_string();
+            let id_case = json!({"clause": v["clause"], "case": v["case"], "profile": v["profile"]});
+            return self.violation(&clause, &sig, id_case, &format!("in a fresh process, with 16 threads making their first calls at the same time: {}", msg));
+        }
+        Ok(())
     }
 
     /// Merge a sub-process result (same property, other build profile) into this run.
